@@ -29,13 +29,18 @@ func cmdshellMain(args []string) {
 			return
 		}
 		pr, pw := io.Pipe()
-		shell.SetInput(pr)
-		go func() {
-			pw.Write(unhex(m["stdin"]))
-			if "open" != m["stdin_mode"] {
-				pw.Close()
-			}
-		}()
+		if "dataeof" == m["stdin_mode"] {
+			/* a reader which hands out its last bytes TOGETHER with io.EOF (legal; known-length HTTP bodies do it) */
+			shell.SetInput(&dataEOFReader{b: unhex(m["stdin"])})
+		} else {
+			shell.SetInput(pr)
+			go func() {
+				pw.Write(unhex(m["stdin"]))
+				if "open" != m["stdin_mode"] {
+					pw.Close()
+				}
+			}()
+		}
 		outr := shell.Output()
 		goDone := make(chan error, 1)
 		start := time.Now()
@@ -97,4 +102,18 @@ func cmdshellMain(args []string) {
 		}
 		emit(res)
 	})
+}
+
+type dataEOFReader struct{ b []byte }
+
+func (r *dataEOFReader) Read(p []byte) (int, error) {
+	if 0 == len(r.b) {
+		return 0, io.EOF
+	}
+	n := copy(p, r.b)
+	r.b = r.b[n:]
+	if 0 == len(r.b) {
+		return n, io.EOF
+	}
+	return n, nil
 }
